@@ -133,7 +133,7 @@ PROPS = {
         "level_text": "CompilePackage, LintFile and LintAll run in journalled children over in-memory bundles: (1) an isolation matrix of several hundred single-feature packages (every field type x qualifier form x array/map, every rule kind on every field type, every list rule, references, inline types, declarations, services with every HTTP method, topics, entities, import forms, multi-file and proto<->j5s packages), each in a package that contains nothing else - every one must compile and link; (2) random multi-package bundles of the documented language - must compile; (3) semantic-fault files, token-level mutations, truncations and random text - no panic, no fatal error, CPU work bound; every diagnostic that names a source file of the bundle must point inside that file.",
         "level_note": "'Documented language' is what README.md, internal/j5s/README.md, J5SchemaSpec + the j5.schema.v1/j5.sourcedef.v1 protos and the repository's tests show; generator productions were calibrated against the repository's own parser. Diagnostics about generated .j5s.proto files (protobuf linker) are counted, not judged.",
         "rule": "one evaluation per bundle; every bundle is non-trivial; distinct by hash of the concatenated sources.",
-        "floors": ["c07:isolation", "c07:random-valid", "c07:semantic-fault", "c07:token-mutation", "c07:truncation", "c07:random-text"],
+        "floors": ["c07:isolation", "c07:random-valid", "c07:random-ruled", "c07:semantic-fault", "c07:token-mutation", "c07:truncation", "c07:random-text"],
         "assumptions": COMMON_ASSUMPTIONS + ["bundles are served through an in-memory LocalFileSource and an empty DependencySet, the interfaces the j5 CLI uses"],
     },
     "C14": {
@@ -182,6 +182,16 @@ PROPS = {
         "level_note": "Normalisation (both sides): inline types are refs to the nested name, absent Rules == empty Rules, empty Ext ignored, exclusive/unique flag false == absent, map key schema ignored, descriptions trimmed.",
         "rule": "one evaluation per compiled package; every package with at least one declared schema is non-trivial; distinct by hash of the sources.",
         "floors": ["c04:isolation", "c04:random-rules", "c04:random-bundle"],
+        "assumptions": COMMON_ASSUMPTIONS,
+    },
+    "C15": {
+        "shards": 16,
+        "level_text": "Descriptor sets from four generators (the j5s isolation matrix, random rule-laden j5s objects and random j5s bundles — both as compiled in memory and as printed .proto text re-read through protosrc — annotated hand-shaped raw .proto over three packages with cross-package references, three-deep nesting, enums reached only through fields, recursion, psm / any_member / enum info / list annotations in random subsets, and the G-PROTO J5-subset models) are pushed through the real entry points structure.APIFromImage -> j5schema.PackageSetFromSourceAPI -> RootSchema.ToJ5Root. The monitor compares the first and the second exported form schema by schema with proto.Equal (naming the first differing path), checks the name sets are equal, that every reference in the exported form points at an exported schema, walks the imported Go schema objects for unlinked or mislinked references, and pushes the second form through import/export once more (fixed point).",
+        "level_note": "What the first export carries is judged by C04; C15 judges only what survives export -> import -> export. Features observed in the first export (enum info, entity markers, any-membership, list rules per field kind, cross-package references, recursion, nested types) are recorded so that a run which never exercised them is inconclusive.",
+        "rule": "one evaluation per exported API; non-trivial when it holds at least one schema; distinct by hash of the serialised API.",
+        "floors": ["c15:j5s-isolation/memory", "c15:j5s-rules/memory", "c15:j5s-bundle/memory", "c15:j5s-bundle/text", "c15:raw-annotated", "c15:raw-model",
+                   "c15:saw/enum-info-fields", "c15:saw/enum-option-info", "c15:saw/entity-marker", "c15:saw/any-member", "c15:saw/cross-package-ref",
+                   "c15:saw/self-recursive", "c15:saw/nested-type", "c15:saw/list-rules/oneof", "c15:saw/list-rules/any", "c15:saw/list-rules/enum", "c15:saw/key-entity", "c15:saw/flatten"],
         "assumptions": COMMON_ASSUMPTIONS,
     },
 }
